@@ -2,7 +2,7 @@
 from gen import lib, sched
 
 PROP_FILE = "props/C05.v"
-FAMILIES = {"reader", "writer", "group", "bg", "walgc"}
+FAMILIES = {"reader", "writer", "group", "bg", "walgc", "waiters"}
 RULE = ("sched (Tier A pause-point schedules): one thread is parked at a scheduling point where it "
         "does not hold the database mutex (reader: between releasing the mutex and reading; writer: "
         "before the WAL append, after it, between memtable inserts, after the inserts; background "
